@@ -307,6 +307,7 @@ class LayoutFile(Native):
         self.hdr_start = eng.binop(ast.Add(), eng.binop(ast.Add(), 32, data_len), hdr_gap)
         self.pos = 0
         self.writes = []
+        self.ops = []
         self.reads = []
         self.name = name
         self.mode = "rb"
@@ -323,6 +324,7 @@ class LayoutFile(Native):
             self.pos = eng.binop(ast.Add(), self.pos, off)
         else:
             raise ModelRaise("Unsupported seek from end")
+        self.ops.append(("seek", self.pos))
         return self.pos
 
     def tell(self, eng):
@@ -348,10 +350,21 @@ class LayoutFile(Native):
         return Blob(n, ("packed", p))
 
     def write(self, eng, data):
+        if isinstance(data, Blob):
+            n = data.length
+        elif isinstance(data, SBytes):
+            n = tokens.byte_len(eng, data.items)
+        else:
+            raise ModelRaise("TypeError", cls=TypeError)
         self.writes.append((self.pos, data))
-        return 0
+        self.ops.append(("write", self.pos, data, n))
+        self.pos = eng.binop(ast.Add(), self.pos, n)
+        return n
 
     def close(self, eng):
+        return None
+
+    def flush(self, eng):
         return None
 
 
